@@ -3,8 +3,10 @@
 import sys, os, json, shutil, subprocess, re
 VERIF = os.path.dirname(os.path.dirname(os.path.abspath(__file__)))
 prop, n, confirm = sys.argv[1], sys.argv[2], sys.argv[3]
-wt = f"/tmp/wt-{prop}"
-dst = os.path.join(VERIF, "seeded", f"{prop}-m{n}")
+# optional: worktree and the number under which the mutant is filed (round 2: /tmp/wt2-<prop>, m1 -> m3, m2 -> m4)
+wt = sys.argv[4] if len(sys.argv) > 4 else f"/tmp/wt-{prop}"
+as_n = sys.argv[5] if len(sys.argv) > 5 else n
+dst = os.path.join(VERIF, "seeded", f"{prop}-m{as_n}")
 os.makedirs(dst, exist_ok=True)
 shutil.copy(f"{wt}/mutants/m{n}.diff", os.path.join(dst, "patch.diff"))
 shutil.copy(f"{wt}/mutants/m{n}_demo.sh", os.path.join(dst, "demo.sh"))
@@ -15,10 +17,10 @@ for line in out.splitlines():
     m = re.match(r"\s+(C\d+)\s+(\S+)\s+-- (.*)", line)
     if m:
         reported.setdefault(m.group(1), []).append(m.group(2))
-meta = {"breaks_property": prop, "source": "independent sub-agent given only the property text and its own scratch worktree",
+meta = {"breaks_property": prop, "source": "independent sub-agent given only the property text and its own scratch worktree" + (" (round 2: defect disguised as a refactoring)" if len(sys.argv) > 4 else ""),
         "needs_to_manifest": "see readme_excerpt", "readme_excerpt": readme[:6000],
         "confirmed_by_me": confirm, "confirm_cmd": f"tools/confirm_mutant.sh {wt} {n}  (apply to clean tree, cargo build --offline, cargo test --workspace --offline, demo on mutant, demo on clean)",
         "checks_reporting_it": reported, "caught_by_target_property_check": prop in reported,
-        "analysis_cmd": "tools/try_diff.py seeded/%s-m%s/patch.diff" % (prop, n)}
+        "analysis_cmd": "tools/try_diff.py seeded/%s-m%s/patch.diff" % (prop, as_n)}
 json.dump(meta, open(os.path.join(dst, "meta.json"), "w"), indent=1)
 print(prop, n, "caught-by-own-check" if prop in reported else "NOT caught by own check", sorted(reported))
